@@ -123,6 +123,25 @@ class Gen12(gen_c10.Gen):
         self.emit(1, "return a")
         self.emit(0, "")
 
+    def bounds_section(self):
+        """several order comparisons of ONE variable with literals of varying types: each attaches an
+        annotated-types bound (Gt/Ge/Lt/Le), and later bounds are checked against earlier ones"""
+        r = self.rng
+        self.features.add("bounds")
+        fn = self.fresh("bnd")
+        self.emit(0, f"def {fn}(a, b: {self.union_annot()}):")
+        lits = ["3", "'x'", "(3, 12)", "2.5", "b'y'", "None", "10**20", "[1]", "-1", "True", "sys.maxsize", "''", "()"]
+        for _ in range(r.randrange(2, 6)):
+            v = r.choice(["a", "a", "b"])
+            op = r.choice([">", ">=", "<", "<=", "==", "!="])
+            lit = r.choice(lits)
+            e = f"{v} {op} {lit}" if r.random() < 0.7 else f"{lit} {op} {v}"
+            self.emit(1, r.choice([f"assert {e}", f"if not ({e}): return None", f"if {e}: reveal_type({v})"]))
+        self.emit(1, f"if len(a) {r.choice(['>', '>=', '<', '=='])} {r.choice(['0', '1', '2', '-1'])}: reveal_type(a)")
+        self.emit(1, "reveal_type(a)")
+        self.emit(1, "return b")
+        self.emit(0, "")
+
     def paramspec_section(self):
         r = self.rng
         self.features.add("paramspec")
@@ -321,7 +340,7 @@ class Gen12(gen_c10.Gen):
             self.class_section, self.odd_annotation_section, self.odd_annotation_section, self.paramspec_section,
             self.decorator_section, self.expr_section, self.expr_section, self.match_section, self.async_section, self.class_odd_section,
             self.literal_union_section, self.literal_union_section, self.typeguard_section, self.typeguard_section,
-            self.sysinfo_section, self.global_section,
+            self.sysinfo_section, self.global_section, self.bounds_section, self.bounds_section,
         ]
         for _ in range(r.randrange(3, 7)):
             r.choice(pieces)()
